@@ -34,7 +34,7 @@ type scanEnv struct {
 	api string
 }
 
-const harnessDir = "/verif/harness"
+var harnessDir = VerifDir + "/harness"
 
 func buildAPIDriver(out string, modfile string) error {
 	args := []string{"build", "-tags", "verif", "-o", out}
